@@ -654,6 +654,17 @@ def execute(sc: dict, ch: Choices, storage_dir: Optional[str], storage_obj=None,
             session: Optional[dict] = None) -> Outcome:
     """Runs warm-up (if the spec asks for a cache pre-state) and then the main
     run_tasks call on the substrate named by sc['backend']."""
+    from . import sim as _sim_mod
+    del _sim_mod.RAISED_HARNESS_ERRORS[:]
+    out = _execute(sc, ch, storage_dir, storage_obj, built, session)
+    if _sim_mod.RAISED_HARNESS_ERRORS:
+        # the simulator met something it does not model: no verdict, whatever labtech did with the exception
+        raise _sim_mod.HarnessError('unmodelled seam: ' + _sim_mod.RAISED_HARNESS_ERRORS[0])
+    return out
+
+
+def _execute(sc: dict, ch: Choices, storage_dir: Optional[str], storage_obj=None, built: Optional[Built] = None,
+             session: Optional[dict] = None) -> Outcome:
     out = Outcome()
     out.real_clock = bool(sc.get('real_clock'))
     backend = sc['backend']
